@@ -73,6 +73,11 @@ type Exec struct {
 	Crashes     int
 	// RejectClass is the failure class the model expects for a change the device refuses (default INVALID)
 	RejectClass string
+	// IdleCheck asks Settle to evaluate C09's first clause before it connects the targets that are still offline:
+	// once the controllers have been quiet for longer than their maximum back-off, re-examining every object
+	// must change nothing. IdleFinding holds the outcome.
+	IdleCheck   bool
+	IdleFinding string
 }
 
 // SetRequestOf builds the gNMI request for a list of operations
@@ -398,6 +403,17 @@ func PhaseString(p *configapi.Proposal) string {
 // controllers' maximum retry back-off.
 func (e *Exec) Settle(stableFor, maxWait time.Duration) {
 	e.checkCrash()
+	if e.IdleCheck && e.Crashes == 0 {
+		offline := false
+		for t := range e.W.Devices {
+			if !e.W.Connected(t) {
+				offline = true
+			}
+		}
+		if offline {
+			e.idleFixedPoint(6*time.Second, 40*time.Second)
+		}
+	}
 	for t := range e.W.Devices {
 		if !e.W.Connected(t) {
 			e.script("FINAL CONNECT %s -> %s", t, e.W.Connect(t))
@@ -452,6 +468,37 @@ func (e *Exec) Settle(stableFor, maxWait time.Duration) {
 		case <-c.done:
 		case <-time.After(time.Until(deadline)):
 		}
+	}
+}
+
+// idleFixedPoint waits until the system has been quiet for the given window (no successful write, device request,
+// environment action or injected fault; the window restarts when this loop itself was starved), then re-examines
+// every object with fresh reconcilers and compares the records before and after
+func (e *Exec) idleFixedPoint(quiet, maxWait time.Duration) {
+	start := time.Now()
+	lastIter := time.Now()
+	for e.W.SinceLastChange() <= quiet {
+		if time.Since(lastIter) > 250*time.Millisecond {
+			e.W.InjectedFault()
+		}
+		lastIter = time.Now()
+		if time.Since(start) > maxWait {
+			return // never quiet: nothing to judge
+		}
+		select {
+		case <-e.W.Crashed:
+			return
+		default:
+		}
+		time.Sleep(2 * time.Millisecond)
+	}
+	before := StateString(e.Snapshot())
+	reqs := e.devReqs()
+	e.ReconcileEverything()
+	after := StateString(e.Snapshot())
+	e.C.Count("idle_fixed_point_passes_with_a_target_offline", 1)
+	if before != after || e.devReqs() != reqs {
+		e.IdleFinding = fmt.Sprintf("with a target offline the controllers had been idle for %s, yet re-examining the objects changed the state:\n before %s\n after  %s", quiet, before, after)
 	}
 }
 
